@@ -175,11 +175,32 @@ func judge(sh *shape, s Scn, o Obs, x *expect) (d *diff, harness string) {
 	return nil, ""
 }
 
-func signature(s Scn, o Obs, d *diff) map[string]string {
-	op := o.OpKind
-	if op == "" {
-		op = "none"
+// opKind: kind ("read" / "write") of the step a scenario is about, from the
+// step script counted on the real code: the stalled step, the step in flight,
+// or (between_steps / before_call) the step whose entry check sees the fired context.
+func opKind(s Scn, kinds string) string {
+	i := 0
+	switch s.Timing {
+	case "during_stall":
+		i = s.K
+	case "between_steps":
+		i = s.J + 1
+	case "in_step_then_completes", "in_step_then_closed":
+		i = s.J
+	case "before_call":
+		i = 1
 	}
+	if i < 1 || i > len(kinds) {
+		return "none"
+	}
+	if kinds[i-1] == 'r' {
+		return "read"
+	}
+	return "write"
+}
+
+func signature(s Scn, kinds string, d *diff) map[string]string {
+	op := opKind(s, kinds)
 	return map[string]string{"spec": "Cancel", "shape": s.Shape, "role": s.Role, "op": op,
 		"timing": s.Timing, "kind": s.CtxKind, "check": d.Check}
 }
@@ -350,7 +371,7 @@ func runAll(c *core.Ctx, e *env, classes map[classKey]*expect, infos map[string]
 			}
 			return
 		}
-		fails = append(fails, failRec{s, o, d, signature(s, o, d)})
+		fails = append(fails, failRec{s, o, d, signature(s, si.kinds, d)})
 	})
 	c.Add("traces_validated_against_impl", conform)
 	c.Set("runs_by_timing", byTiming)
@@ -383,7 +404,7 @@ func runAll(c *core.Ctx, e *env, classes map[classKey]*expect, infos map[string]
 		seen[k] = true
 		c.Fail(core.Failure{Signature: f.sig,
 			Detail: fmt.Sprintf("%s %s (%s), N=%d steps %q, stall at k=%d, context (%s, %s) fired %s at step j=%d: %s [%d scenarios with this signature]",
-				f.s.Shape, f.s.Role, f.o.OpKind, f.s.N, f.o.Steps, f.s.K, f.s.CtxKind, f.s.CtxImpl, f.s.Timing, f.s.J, f.d.Detail, cnt[k]),
+				f.s.Shape, f.s.Role, f.sig["op"], f.s.N, f.o.Steps, f.s.K, f.s.CtxKind, f.s.CtxImpl, f.s.Timing, f.s.J, f.d.Detail, cnt[k]),
 			Scenario: f.s})
 	}
 	if len(bySig) > 0 {
@@ -405,11 +426,15 @@ func run(c *core.Ctx) {
 	if c.Thorough() {
 		mc = "MC_C19.cfg"
 	}
-	if c.Replay == "" {
-		if kit.ModelCheck(c, "Cancel.tla", mc, tlc.Options{Workers: 8}) == nil {
-			return
+	// the model check does not depend on anything below: run it alongside
+	mcDone := make(chan struct{})
+	go func() {
+		defer close(mcDone)
+		if c.Replay == "" {
+			kit.ModelCheck(c, "Cancel.tla", mc, tlc.Options{Workers: 8})
 		}
-	}
+	}()
+	defer func() { <-mcDone }()
 	raws := kit.Generate(c, "Gen_Cancel.tla", "Gen_C19.cfg", tlc.Options{})
 	if c.IsBroken() {
 		return
